@@ -4,8 +4,8 @@ from props import endpoint
 
 def check(pid, tier, replay):
     names = ["dchan", "dia", "dib", "dic"] if tier == "thorough" else ["chan", "ia", "ib", "ic"]
-    gens = [("endpoint/LimitsGen", "endpoint/LimitsGen_%s.cfg" % n) for n in names]
+    gens = [("endpoint/LimitsGen", "endpoint/LimitsGen_%s.cfg" % n) for n in names + ["il"]]
     endpoint.run(pid, tier, replay, ("C17_",), [("endpoint/Limits", None)], gens,
                  "channel-max: every pair of local / remote values from the configured set, sessions begun up to two beyond the agreed limit, one ended, two more begun; "
-                 "idle time-outs (200 ms, local / remote / both): every sequence up to the depth bound of clock advances of 150 / 190 / 230 / 650 ms (10 ms steps), peer empty frames "
-                 "and endpoint traffic, with an on_close call pending; distinct = distinct scripts")
+                 "idle time-outs (200 ms, local / remote / both): every sequence up to the depth bound of clock advances of 30 / 150 / 190 / 230 / 650 ms (10 ms steps), peer empty frames "
+                 "and endpoint traffic, with an on_close call pending; the same with a peer that answers the open 120 ms late; distinct = distinct scripts")
